@@ -1789,3 +1789,312 @@ func fromProgramData(v ssa.Value, d int) bool {
 	}
 	return false
 }
+
+// ---------------------------------------------------------------------------------------------
+// C14.R16: a loop body that is generated more than once may declare its captures in every copy.
+//
+// The generator unrolls the mandatory iterations of an unnamed loop: the body is generated once per iteration (and once more for
+// the repeating part). A body that declares a capture - every capturing group of a regexp does - declares it in every copy, and
+// the declaration refuses a name that is already there (`name clash`): `@/(a)+/` is rejected although nothing clashes. A function
+// that generates the body of a loop node inside a loop of its own must take the captures of the previous copy out of the scope
+// again (a `delete` on GenState.variables, or a store that restores the table) before it generates the next one - or the
+// declaration must not be reachable from the body generator.
+func ruleUnrolledBodiesMayDeclare(c *Ctx, rule string) {
+	r := c.R
+	gs := c.NamedType("bytecode", "GenState")
+	loopT := c.NamedType("ast", "AstLoop")
+	if gs == nil || loopT == nil {
+		r.Ob(rule, "anchor bytecode.GenState / ast.AstLoop", "").Und("not found")
+		return
+	}
+	onVariables := func(v ssa.Value) bool {
+		for _, s := range traceAddr(v).Steps {
+			if s.Kind == "field" && s.Field == "variables" && types.Identical(s.Struct, gs) {
+				return true
+			}
+		}
+		return false
+	}
+	// declarers: refuse a name that is present in GenState.variables and enter it as a capture (-1)
+	declarer := map[*ssa.Function]bool{}
+	for _, fn := range c.SrcFuncs("bytecode") {
+		looks, enters := false, false
+		instrsOf(fn, func(in ssa.Instruction) {
+			switch x := in.(type) {
+			case *ssa.Lookup:
+				if x.CommaOk && onVariables(x.X) {
+					looks = true
+				}
+			case *ssa.MapUpdate:
+				if k, ok := constInt(x.Value); ok && k == -1 && onVariables(x.Map) {
+					enters = true
+				}
+			}
+		})
+		if looks && enters {
+			declarer[fn] = true
+		}
+	}
+	if len(declarer) == 0 {
+		r.Ob(rule, "anchor: the function that declares a capture in GenState.variables", "").Und("no function of package bytecode looks a name up in GenState.variables and enters it with -1")
+		return
+	}
+	reachesDeclarer := func(from *ssa.Function) bool {
+		for f := range c.Reachable(from) {
+			if declarer[f] {
+				return true
+			}
+		}
+		return declarer[from]
+	}
+	n := 0
+	for _, fn := range c.SrcFuncs("bytecode") {
+		var loopP *ssa.Parameter
+		for _, p := range fn.Params {
+			if types.Identical(deref(p.Type()), loopT) {
+				loopP = p
+			}
+		}
+		if loopP == nil {
+			continue
+		}
+		// calls, inside a loop of this function, that generate a part of the loop node and can reach a declarer
+		for _, comp := range sccs(fn, func(a, b *ssa.BasicBlock) bool { return true }) {
+			var gen *ssa.Call
+			forgets := false
+			for _, b := range comp {
+				for _, in := range b.Instrs {
+					switch x := in.(type) {
+					case *ssa.Call:
+						if bi, ok := x.Call.Value.(*ssa.Builtin); ok && bi.Name() == "delete" && len(x.Call.Args) > 0 && onVariables(x.Call.Args[0]) {
+							forgets = true
+						}
+						sc := x.Call.StaticCallee()
+						if sc == nil || !c.isRepoFn(sc) {
+							continue
+						}
+						fromNode := false
+						for _, a := range x.Call.Args {
+							if traceAddr(a).Root == ssa.Value(loopP) {
+								fromNode = true
+							}
+						}
+						if fromNode && reachesDeclarer(sc) {
+							gen = x
+						}
+						// a closure of the function that generates the body for it (it captures the loop node)
+						if sc.Parent() == fn {
+							instrsOf(sc, func(y ssa.Instruction) {
+								c2, ok := y.(*ssa.Call)
+								if !ok {
+									return
+								}
+								if bi, ok := c2.Call.Value.(*ssa.Builtin); ok && bi.Name() == "delete" && len(c2.Call.Args) > 0 && onVariables(c2.Call.Args[0]) {
+									forgets = true
+								}
+								s2 := c2.Call.StaticCallee()
+								if s2 == nil || !c.isRepoFn(s2) || !reachesDeclarer(s2) {
+									return
+								}
+								for _, a := range c2.Call.Args {
+									if fv, ok := traceAddr(a).Root.(*ssa.FreeVar); ok && fv.Name() == loopP.Name() {
+										gen = x
+									}
+								}
+							})
+						}
+						// a helper of the package that forgets for the function
+						if sc.Pkg == fn.Pkg {
+							instrsOf(sc, func(y ssa.Instruction) {
+								if c2, ok := y.(*ssa.Call); ok {
+									if bi, ok := c2.Call.Value.(*ssa.Builtin); ok && bi.Name() == "delete" && len(c2.Call.Args) > 0 && onVariables(c2.Call.Args[0]) {
+										forgets = true
+									}
+								}
+							})
+						}
+					case *ssa.Store:
+						if fa, ok := x.Addr.(*ssa.FieldAddr); ok && types.Identical(deref(fa.X.Type()), gs) && fieldName(gs, fa.Field) == "variables" {
+							forgets = true
+						}
+					}
+				}
+			}
+			if gen == nil {
+				continue
+			}
+			n++
+			ob := r.Ob(rule, fnName(fn)+": the copies of an unrolled loop body may each declare the body's captures", c.pos(gen.Pos()))
+			if forgets {
+				ob.OKnt("between the copies the captures of the previous copy are taken out of GenState.variables again")
+			} else {
+				ob.Bad("the body of the loop is generated once per mandatory iteration (" + shortCallee(gen) + " in a loop), every copy declares the body's captures, and a capture that is already declared is a `name clash`: a capturing group under `+` or `{n}` (`@/(a)+/`, `at least 2 (digit = d)`) is rejected although nothing clashes")
+			}
+		}
+	}
+	if n == 0 {
+		r.Ob(rule, "loop bodies generated more than once", "").OK("no function of the generator generates a part of a loop node inside a loop of its own")
+	}
+}
+
+// ---------------------------------------------------------------------------------------------
+// C02.R12: a back-reference looks a name up where a capture puts it.
+//
+// INSERTVARIABLE enters a binding into the environment of the state, or - inside a named loop - into the table of that loop's
+// current iteration. MATCHVAR, which matches "the text currently bound to the name", must read from every table the writer can
+// write to; a reader that knows the environment only does not see what a capture of the same iteration of a named loop has just
+// bound, so naming a loop changes what its body matches.
+func ruleBindingReaderCoversWriter(c *Ctx, rule string) {
+	r := c.R
+	w := c.stateMethod("INSERTVARIABLE")
+	rd := c.stateMethod("MATCHVAR")
+	ob := r.Ob(rule, "MATCHVAR reads from every table INSERTVARIABLE writes to", "")
+	if w == nil || rd == nil {
+		ob.Und("INSERTVARIABLE / MATCHVAR not found")
+		return
+	}
+	ob.Pos = c.pos(rd.Pos())
+	var tableRoot func(v ssa.Value, d int) string
+	tableRoot = func(v ssa.Value, d int) string {
+		if v == nil || d > 10 {
+			return ""
+		}
+		switch x := v.(type) {
+		case *ssa.UnOp:
+			return tableRoot(x.X, d+1)
+		case *ssa.FieldAddr:
+			if n, ok := deref(x.X.Type()).(*types.Named); ok {
+				return n.Obj().Name() + "." + fieldName(n, x.Field)
+			}
+		case *ssa.Field:
+			if n, ok := x.X.Type().(*types.Named); ok {
+				return n.Obj().Name() + "." + fieldName(n, x.Field)
+			}
+		case *ssa.Call:
+			if len(x.Call.Args) > 0 && !x.Call.IsInvoke() {
+				return tableRoot(x.Call.Args[0], d+1)
+			}
+			if x.Call.IsInvoke() {
+				return tableRoot(x.Call.Value, d+1)
+			}
+		case *ssa.Extract:
+			return tableRoot(x.Tuple, d+1)
+		case *ssa.MakeInterface:
+			return tableRoot(x.X, d+1)
+		case *ssa.ChangeType:
+			return tableRoot(x.X, d+1)
+		case *ssa.Phi:
+			for _, e := range x.Edges {
+				if s := tableRoot(e, d+1); s != "" {
+					return s
+				}
+			}
+		}
+		return ""
+	}
+	tablesOf := func(fn *ssa.Function, method string) map[string]string {
+		out := map[string]string{}
+		seen := map[*ssa.Function]bool{}
+		var visit func(f *ssa.Function, depth int)
+		visit = func(f *ssa.Function, depth int) {
+			if seen[f] || depth > 2 {
+				return
+			}
+			seen[f] = true
+			instrsOf(f, func(in ssa.Instruction) {
+				call, ok := in.(*ssa.Call)
+				if !ok {
+					return
+				}
+				sc := call.Call.StaticCallee()
+				if sc == nil {
+					return
+				}
+				if sc.Name() == method && sc.Signature.Recv() != nil && len(call.Call.Args) > 0 {
+					if root := tableRoot(call.Call.Args[0], 0); root != "" {
+						out[root] = c.pos(call.Pos())
+					}
+				}
+				// helpers of the state that do the lookup (or the insertion) for the primitive
+				if sc.Pkg == fn.Pkg && sc.Signature.Recv() != nil && sc != fn {
+					if nt, ok := deref(sc.Signature.Recv().Type()).(*types.Named); ok && nt.Obj().Name() == "SearchEngineState" {
+						visit(sc, depth+1)
+					}
+				}
+			})
+		}
+		visit(fn, 0)
+		return out
+	}
+	written := tablesOf(w, "Add")
+	read := tablesOf(rd, "Get")
+	if len(written) == 0 || len(read) == 0 {
+		ob.Und(fmt.Sprintf("tables written by INSERTVARIABLE: %v; tables read by MATCHVAR: %v", sortedKeys(written), sortedKeys(read)))
+		return
+	}
+	var missing []string
+	for _, t := range sortedKeys(written) {
+		if _, ok := read[t]; !ok {
+			missing = append(missing, t+" (written at "+written[t]+")")
+		}
+	}
+	// a lookup helper of the state must not report a miss before it has asked the environment: every return is the environment's
+	// own answer, or a hit (behind a found-flag that is true)
+	var early []string
+	for _, f := range c.SrcFuncs("engine") {
+		recv := f.Signature.Recv()
+		if recv == nil || f == rd || f == w {
+			continue
+		}
+		if nt, ok := deref(recv.Type()).(*types.Named); !ok || nt.Obj().Name() != "SearchEngineState" {
+			continue
+		}
+		if len(callsTo(rd, f)) == 0 || f.Signature.Results().Len() != 2 {
+			continue
+		}
+		cds := NewPostDom(f).ControlDeps()
+		instrsOf(f, func(in ssa.Instruction) {
+			ret, ok := in.(*ssa.Return)
+			if !ok || len(ret.Results) != 2 {
+				return
+			}
+			// the environment's answer handed on
+			if ex, ok := ret.Results[1].(*ssa.Extract); ok {
+				// (the table of the state that INSERTVARIABLE writes outside named loops, wherever the field lives)
+				if root := tableRoot(ex.Tuple, 0); root != "" && !strings.HasPrefix(root, "LoopState.") {
+					if _, isWritten := written[root]; isWritten {
+						return
+					}
+				}
+			}
+			// a hit: the flag is the constant true, or the return lies behind a found-flag
+			if k, ok := ret.Results[1].(*ssa.Const); ok && k.Value != nil && k.Value.Kind() == constant.Bool && constant.BoolVal(k.Value) {
+				return
+			}
+			for _, l := range condsOf(cds, ret.Block()) {
+				v, pol := l.Cond, l.Pol
+				for {
+					u, isNot := v.(*ssa.UnOp)
+					if !isNot || u.Op != token.NOT {
+						break
+					}
+					v, pol = u.X, !pol
+				}
+				if ex, ok := v.(*ssa.Extract); ok && ex.Index == 1 && pol && ret.Results[1] == ssa.Value(ex) {
+					return
+				}
+			}
+			early = append(early, c.pos(ret.Pos()))
+		})
+	}
+	if len(missing) == 0 && len(early) > 0 {
+		sort.Strings(early)
+		ob.Bad("the lookup that MATCHVAR uses can answer at " + strings.Join(uniq(early), ", ") + " without having asked the environment: inside a named loop a name that was bound outside it (or in an enclosing named loop) is reported unbound, and the back-reference fails")
+		return
+	}
+	if len(missing) == 0 {
+		ob.OKnt("written: " + strings.Join(sortedKeys(written), ", ") + "; read: " + strings.Join(sortedKeys(read), ", "))
+	} else {
+		ob.Bad("INSERTVARIABLE enters bindings into " + strings.Join(missing, ", ") + ", which MATCHVAR never reads (it reads " + strings.Join(sortedKeys(read), ", ") + "): a back-reference inside a named loop does not see the capture of the same iteration - `at least 1 ((digit = d) d)` finds \"11\", the same loop `named n` finds nothing")
+	}
+}
